@@ -92,6 +92,20 @@ DEFAULTS = {
 
 
 # ------------------------------------------------------------------------------------------------ IEEE-754 spot obligations (DESIGN 4.6)
+def relevant(side, *terms):
+    """the side constraints (definitions of nondeterministic library results) whose fresh variable occurs in the given terms"""
+    def consts(t, acc):
+        if z3.is_const(t) and t.decl().kind() == z3.Z3_OP_UNINTERPRETED:
+            acc.add(t.decl().name())
+        for ch in t.children():
+            consts(ch, acc)
+        return acc
+    used = set()
+    for t in terms:
+        consts(t, used)
+    return [c for c in side if consts(c, set()) & {n for n in used if n.startswith("pow2")}]
+
+
 def ieee_obligations(run):
     """Arc and SemiEllipse COMPUTE a breakpoint (c = s + (e - s); r = (e - s) / 2, c = s + r) and take a square root of a difference of squares:
     in exact reals the end points of the support select the arc branch and the root's argument is >= 0 there; in doubles a rounded c or a
@@ -115,12 +129,12 @@ def ieee_obligations(run):
             sup = [(ln, g, c) for ln, g, c, has_sqrt in ex.wheres if has_sqrt]
             out.append(static(f"{fq}/ieee.support_condition_found[x={which}]", len(sup) == 1 and len(ex.sqrts) >= 1, f"{len(sup)} np.where call(s) whose true branch takes a square root; {len(ex.sqrts)} np.sqrt call(s)", fn=fq))
             for ln, g, c in sup:
-                o = Obl(f"{fq}/ieee.end_point_selects_the_arc_branch[x={which}]", valid + [g], c, fn=fq, meta=rp)
+                o = Obl(f"{fq}/ieee.end_point_selects_the_arc_branch[x={which}]", valid + relevant(ex.side, g, c) + [g], c, fn=fq, meta=rp)
                 o.fpvars = {"start": st, "end": en}
                 out.append(o)
             if run.tier == "thorough" or os.environ.get("PYVC_IEEE_SQRT"):
                 for ln, g, a in ex.sqrts:
-                    o = Obl(f"{fq}/ieee.sqrt_argument_is_not_negative[x={which}]", valid + [g], z3.And(z3.Not(z3.fpIsNaN(a)), z3.Not(z3.fpLT(a, fp(0.0)))), fn=fq, meta=dict(rp, best_effort=True))
+                    o = Obl(f"{fq}/ieee.sqrt_argument_is_not_negative[x={which}]", valid + relevant(ex.side, g, a) + [g], z3.And(z3.Not(z3.fpIsNaN(a)), z3.Not(z3.fpLT(a, fp(0.0)))), fn=fq, meta=dict(rp, best_effort=True))
                     out.append(o)
     return out
 
